@@ -25,6 +25,8 @@ function leafKinds() {
     ['text:interleaved', () => text('a', X, 'b', Y, 'c')],
     ['text:blank-between-bindings', () => text(X, ' ', Y)],
     ['text:braces', () => text('{{a}} }} {')],
+    ['text:backslashes', () => text('C:\\0\\tmp \\d\\07 \\\\0 \\n \\x41 \\u0041')],
+    ['text:backslash+binding', () => text('\\0=', X, '\\1')],
     ['text:reference-lengths', () => text('a\tb\u00e9c\u{1f600}d\u{10ffff}e')],
     ['comment', () => comment(' c ')],
   ]
@@ -39,6 +41,7 @@ function elementKinds() {
     ['attr:static', () => v([A.plain('p', 's')])],
     ['attr:static-entities', () => v([A.plain('p', 'a"b&c<d\'')])],
     ['attr:static-empty', () => v([A.plain('p', '')])],
+    ['attr:static-backslashes', () => v([A.plain('p', '\\d\\07 \\\\0'), A.dataHyphen('k', '\\0'), A.mark('m', 'a\\00'), A.cls('\\0'), A.id('\\09')])],
     ['attr:reference-lengths', () => v([A.plain('p', 'a\tb\u00e9c\u{1f600}d\u{10ffff}e'), A.cls('\u00e9 \tk')])],
     ['attr:binding', () => v([A.plain('p', X)])],
     ['attr:mixed', () => v([A.plain('p', ['a', X, 'b'])])],
@@ -84,6 +87,9 @@ function elementKinds() {
     ['component:attr+model', () => el('k', [A.plain('p', Y), A.model('val', X)])],
     ['component:model-member', () => el('k', [A.model('val', E(M.mem(id('a'), 'b')))])],
     ['component:mixed', () => el('k', [A.plain('p', ['a', X])])],
+    // (`style` is a declared property of the child component; class and id are not)
+    ['component:style-property', () => el('k', [A.style(X)])],
+    ['component:class+id', () => el('k', [A.cls(X), A.id(Y)])],
     ['attrs:several', () => v([A.plain('p', X), A.cls('c'), A.id('i'), A.dataHyphen('k', Y), A.event('bind', 'tap', 'f')])],
   ]
   // every event prefix x every value form (the flags travel separately from the handler), on an element and on a <slot>
@@ -166,6 +172,8 @@ function controlKinds() {
     ['block-slot+for-static', (b) => [el('c', [], [block(b, { slot: 's3', wxFor: { list: LIST } })])]],
     ['for:object', (b) => [el('v', [], [...b, text(E(id('index')), ':', E(M.mem(id('item'), 'v')))], { wxFor: { list: E(id('obj')) } })]],
     ['for:object-keyed', (b) => [el('v', [], [...b, text(E(id('index')), ':', E(M.mem(id('item'), 'v')))], { wxFor: { list: E(id('obj')), key: 'id' } })]],
+    ['for:object-keyed-index-alone', (b) => [el('v', [A.dataColon('k', E(id('index')))], [...b, text(E(M.mem(id('item'), 'v')))], { wxFor: { list: E(id('obj')), key: 'id' } })]],
+    ['for:key-index-alone', (b) => [el('v', [A.dataColon('k', E(id('index')))], [...b, text(E(M.mem(id('item'), 'v')))], { wxFor: { list: LIST, key: 'id' } })]],
     ['for:object-keyed-this', (b) => [block([...b, text(E(id('index')), '=', E(M.mem(id('item'), 'id')))], { wxFor: { list: E(id('obj')), key: '*this' } })]],
     ['for:literal-list', (b) => [el('v', [], [...b, text(E(id('item')))], { wxFor: { list: E(M.arr([id('x'), id('y')])) } })]],
     ['for:number-literal', (b) => [el('v', [], [...b, text(E(id('index')))], { wxFor: { list: E(M.lit('3')) } })]],
@@ -252,6 +260,8 @@ function exprForms() {
     ['array-spread-index', M.idx(M.arr([{ spread: M.arr([x]) }, { spread: id('list') }, y]), M.lit('1'))],
     ['array-after-spread', M.idx(M.arr([{ spread: M.arr([M.lit('1')]) }, M.mem(a, 'b')]), M.lit('1'))],
     ['plus-right-group', M.bin('+', x, M.grp(M.bin('+', y, M.lit('1'))))],
+    // a call whose callee is itself a data value (replacing the function alone must re-evaluate the call)
+    ['call-data-function', M.call(id('f'), [x])],
   ]
 }
 /** binding positions: (expr) -> nodes */
@@ -287,7 +297,7 @@ function bindingPositions() {
     ['slot-value', (e) => [W, slot('n', [['v', E(e)]])]],
     ['block-slot-attr', (e) => [W, el('c', [], [block([text('t')], { slot: E(e) })])]],
     ['in-slot-scope', (e) => [W, el('c', [], [el('d', [A.plain('p', E(e))], [text(E(id('u')))], { slotScopes: [['u', undefined]] })])]],
-    ['in-template-body', (e) => [W, tdef('t', [el('v', [A.plain('p', E(e))])]), tis('t', M.obj([{ short: 'x' }, { short: 'y' }, { short: 'a' }, { short: 'c' }, { short: 'n' }, { short: 'list' }]))]],
+    ['in-template-body', (e) => [W, tdef('t', [el('v', [A.plain('p', E(e))])]), tis('t', M.obj([{ short: 'x' }, { short: 'y' }, { short: 'a' }, { short: 'c' }, { short: 'n' }, { short: 'list' }, { short: 'f' }]))]],
   ]
 }
 
@@ -364,7 +374,11 @@ function placementCases() {
 // ---------------------------------------------------------------------------------------------
 // data environments
 
+/** function-valued data (named, so that histories can be written down and replayed) */
+const FNS = { f1: function f1(v) { return '<' + v + '>' }, f2: function f2(v) { return '[' + v + ']' } }
+
 const VALUES = {
+  f: [FNS.f1, FNS.f2, undefined],
   x: [undefined, null, 'X', 0, false, '', 7, { toString() { return 'obj' } }],
   y: [undefined, 'Y', 0, null],
   c: [undefined, 0, 1, '', 'a', null],
@@ -466,4 +480,4 @@ function corpus(deep) {
   return out
 }
 
-module.exports = { placementCases, exprForms, bindingPositions, leafKinds, elementKinds, wrappable, controlKinds, multiFileKinds, corpus, environments, collectNames, VALUES }
+module.exports = { placementCases, exprForms, bindingPositions, leafKinds, elementKinds, wrappable, controlKinds, multiFileKinds, corpus, environments, collectNames, VALUES, FNS }
